@@ -1631,6 +1631,11 @@ func (ctx Ctx) defineStmt(s *ast.AssignStmt) coq.Binding {
 	}
 	var names []string
 	for _, ident := range idents {
+		if ident.Name != "_" && ctx.info.Defs[ident] == nil && ctx.isPtrWrapped(ident) {
+			// Go assigns to the existing variable; a fresh let would shadow
+			// the cell with a value and later loads and stores get stuck
+			ctx.unsupported(ident, "%s is already declared in this scope as a heap variable, so := assigns to it", ident.Name)
+		}
 		names = append(names, ident.Name)
 	}
 	// NOTE: this checks whether the identifier being defined is supposed to be
